@@ -346,7 +346,7 @@ Definition laid_groups (fi : file_in) : list (tval * list tval) :=
 Definition parquet_version : N := 2.
 
 (* [lg]: the laid out row groups *)
-Definition footer_of (fi : file_in) (lg : list (tval * list tval)) : tval :=
+Definition footer_of_groups (fi : file_in) (lg : list (tval * list tval)) : tval :=
   TStruct ((FMD_Version, i32 parquet_version)
            :: (FMD_Schema, fi_schema fi)
            :: (FMD_NumRows, i64 (fold_left N.add (map group_num_rows (fi_groups fi)) 0))
@@ -356,11 +356,11 @@ Definition footer_of (fi : file_in) (lg : list (tval * list tval)) : tval :=
 Definition oindexes_of (lg : list (tval * list tval)) : bytes := concat (map (fun gl => oi_bytes (snd gl)) lg).
 
 Definition assemble (fi : file_in) (lg : list (tval * list tval)) : bytes :=
-  let fb := encode (footer_of fi lg) in
+  let fb := encode (footer_of_groups fi lg) in
   file_magic ++ groups_bytes fi ++ cindexes_bytes fi ++ oindexes_of lg
   ++ fb ++ to_le 4 (sizeN fb) ++ file_magic.
 
-Definition footer_tree (fi : file_in) : tval := footer_of fi (laid_groups fi).
+Definition footer_tree (fi : file_in) : tval := footer_of_groups fi (laid_groups fi).
 Definition footer_bytes (fi : file_in) : bytes := encode (footer_tree fi).
 Definition oindexes_bytes (fi : file_in) : bytes := oindexes_of (laid_groups fi).
 Definition footer_start (fi : file_in) : N := oindex_start fi + sizeN (oindexes_bytes fi).
@@ -428,7 +428,7 @@ Definition group_ok (g : group_in) : bool :=
 (* the trees the accounting produced are encodable and within the decoder's
    thrift fuel; the footer length fits the 4-byte field *)
 Definition file_ok_with (fi : file_in) (lg : list (tval * list tval)) : bool :=
-  let ft := footer_of fi lg in
+  let ft := footer_of_groups fi lg in
   forallb group_ok (fi_groups fi)
   && ids_between FMD_RowGroups (2 ^ 15) (fi_tail fi)
   && wfb ft && (need ft <=? 64)%nat
